@@ -3,6 +3,7 @@ package specgen
 import (
 	"fmt"
 	"sort"
+	"strconv"
 	"strings"
 	"time"
 
@@ -64,7 +65,7 @@ func (c *Ctx) Tag(tag string) { c.Tags[tag]++ }
 func (c *Ctx) next() int { c.n++; return c.n }
 
 // (the last four end in id / ids, which goag's identifier casing treats specially)
-var stems = []string{"alpha", "bravo", "delta", "gamma", "kappa", "omega", "sigma", "theta", "lambda", "zeta", "grid", "bids", "android", "paid"}
+var stems = []string{"alpha", "bravo", "delta", "gamma", "kappa", "omega", "sigma", "theta", "lambda", "zeta", "grid", "bids", "android", "paid", "uuid", "deviceuuid", "accountguid"}
 
 // SafeName draws a name that is >=5 characters, carries a digit, is unique within
 // the document (and stays unique after case-folding and removal of
@@ -72,13 +73,16 @@ var stems = []string{"alpha", "bravo", "delta", "gamma", "kappa", "omega", "sigm
 func (c *Ctx) SafeName(prefix string, label string) string {
 	stem := rapid.SampledFrom(stems).Draw(c.T, label+"_stem")
 	n := c.next()
-	switch rapid.IntRange(0, 3).Draw(c.T, label+"_shape") {
+	switch rapid.IntRange(0, 4).Draw(c.T, label+"_shape") {
 	case 0:
 		return fmt.Sprintf("%s%s%d", prefix, stem, n)
 	case 1:
 		return fmt.Sprintf("%s_%s%d", prefix, stem, n)
 	case 2:
 		return fmt.Sprintf("%s%s%dx", prefix, strings.Title(stem), n)
+	case 3:
+		// a last part that is exactly id / ids / Ids (X-Shop-Ids, shop_id)
+		return fmt.Sprintf("%s-%s%d-%s", prefix, stem, n, rapid.SampledFrom([]string{"ids", "Ids", "id", "Id", "uuid"}).Draw(c.T, label+"_idpart"))
 	default:
 		return fmt.Sprintf("%s-%s%d", prefix, stem, n)
 	}
@@ -169,16 +173,37 @@ type Prim struct {
 }
 
 func (p Prim) Schema() *Schema {
-	return &Schema{Type: p.Type, Format: p.Format, TimeFormat: p.Layout()}
+	s := &Schema{Type: p.Type, Format: p.Format, TimeFormat: p.Layout()}
+	// the layout may be written as a Go string literal instead of a constant of package time
+	if strings.HasSuffix(p.Name, "~lit") {
+		s.TimeFormat = strconv.Quote(GoLayout(p.Layout()))
+	}
+	return s
 }
 
-// Layout is the x-goag-go-time-format of a date-time primitive ("" = goag's default):
-// it travels in the name after an '@' (datetime@time.RFC1123Z).
+// Layout is the x-goag-go-time-format of a date-time primitive ("" = goag's default), by
+// its canonical name: it travels in the name after an '@' (datetime@time.RFC1123Z; a
+// trailing ~lit says the document spells it as a string literal).
 func (p Prim) Layout() string {
 	if i := strings.Index(p.Name, "@"); i >= 0 {
-		return p.Name[i+1:]
+		return strings.TrimSuffix(p.Name[i+1:], "~lit")
 	}
 	return ""
+}
+
+// CanonLayout maps a layout written as a Go string literal to the constant of package
+// time with the same text (the name every oracle knows it by).
+func CanonLayout(expr string) string {
+	if strings.HasPrefix(expr, "\"") {
+		if text, err := strconv.Unquote(expr); err == nil {
+			for _, name := range TimeLayouts {
+				if GoLayout(name) == text {
+					return name
+				}
+			}
+		}
+	}
+	return expr
 }
 
 // TimeLayouts are the layouts the generators draw for date-time parameters and
@@ -186,6 +211,10 @@ func (p Prim) Layout() string {
 var TimeLayouts = []string{"time.RFC1123Z", "time.DateOnly", "time.DateTime", "time.RFC3339"}
 
 func GoLayout(expr string) string {
+	if strings.HasPrefix(expr, "\"") {
+		text, _ := strconv.Unquote(expr)
+		return text
+	}
 	switch expr {
 	case "time.RFC1123Z":
 		return time.RFC1123Z
@@ -219,7 +248,7 @@ func PrimOf(s *Schema) (Prim, bool) {
 	for _, p := range Prims {
 		if p.Type == s.Type && p.Format == s.Format {
 			if p.Format == "date-time" && s.TimeFormat != "" {
-				p.Name = "datetime@" + s.TimeFormat
+				p.Name = "datetime@" + CanonLayout(s.TimeFormat)
 			}
 			return p, true
 		}
@@ -241,6 +270,10 @@ func (c *Ctx) maybeLayout(p Prim, label string) Prim {
 	if p.Format == "date-time" && p.Layout() == "" && c.Allow("param:time-layout") && rapid.Bool().Draw(c.T, label+"_layout") {
 		p.Name = "datetime@" + rapid.SampledFrom(TimeLayouts).Draw(c.T, label+"_layout_expr")
 		c.Tag("param:time-layout")
+		if rapid.IntRange(0, 3).Draw(c.T, label+"_layout_literal") == 0 {
+			p.Name += "~lit"
+			c.Tag("param:time-layout-as-literal")
+		}
 	}
 	return p
 }
@@ -304,7 +337,7 @@ func (c *Ctx) rawSchema(depth int, pos string) *Schema {
 	case "prim":
 		pr := c.prim("prim")
 		// (C06 only) a date-time property / item may carry a Go layout of its own
-		if c.JSONTimeLayouts {
+		if c.JSONTimeLayouts && (pos == "property" || pos == "items") {
 			pr = c.maybeLayout(pr, "prim")
 		}
 		s = pr.Schema()
@@ -453,9 +486,14 @@ func (c *Ctx) objectSchema(depth int, withProps bool) *Schema {
 	for i := 0; i < n; i++ {
 		name := c.SafeName("p", "prop")
 		// (a property may be named like a specification extension: it is a property all the same)
-		if rapid.IntRange(0, 9).Draw(t, "prop_named_like_extension") == 0 {
+		switch rapid.IntRange(0, 9).Draw(t, "prop_name_variant") {
+		case 0:
 			name = "x-" + name
 			c.Tag("prop:named-like-extension")
+		case 1, 2:
+			// PascalCase property names (Radius, ID): common where the API mirrors Go / C# types
+			name = strings.ToUpper(name[:1]) + name[1:]
+			c.Tag("prop:pascal-case")
 		}
 		s.Properties[name] = c.Schema(depth-1, "property")
 		if rapid.Bool().Draw(t, "required") {
@@ -569,8 +607,11 @@ func (c *Ctx) oneOfSchema(depth int) *Schema {
 		prop := c.SafeName("kind", "disc")
 		s.Discriminator = &Discriminator{PropertyName: prop}
 		withMapping := rapid.Bool().Draw(t, "mapping")
+		mapStyle := ""
 		if withMapping {
 			s.Discriminator.Mapping = map[string]string{}
+			mapStyle = rapid.SampledFrom([]string{"full", "first-only", "random", "random"}).Draw(t, "mapping_style")
+			c.Tag("oneOf:mapping-" + mapStyle)
 		}
 		for i := 0; i < n; i++ {
 			name := c.objectComponent(depth, "oneof", true)
@@ -583,7 +624,17 @@ func (c *Ctx) oneOfSchema(depth int) *Schema {
 			}
 			c.discriminated[name] = true
 			s.OneOf = append(s.OneOf, &Schema{Ref: RefSchemas + name})
-			if withMapping && (i == n-1 || rapid.IntRange(0, 2).Draw(t, "mapped") != 0) {
+			mapped := false
+			switch mapStyle {
+			case "full":
+				mapped = true
+			case "first-only":
+				// (the Cat / Dog / Lizard shape of the OpenAPI text: fewer keys than alternatives)
+				mapped = i == 0
+			default:
+				mapped = i == n-1 || rapid.IntRange(0, 2).Draw(t, "mapped") != 0
+			}
+			if withMapping && mapped {
 				key := c.PlainName("m", "mapkey")
 				// (a key that merely repeats the schema's own name is common in hand-written specs)
 				if rapid.IntRange(0, 3).Draw(t, "mapkey_identity") == 0 {
@@ -875,6 +926,10 @@ func BaseForms() []BaseForm {
 		{Name: "server-path-percent-encoded", Servers: []*Server{{URL: "https://h.example/caf%C3%A9/v1"}}, Expected: "/caf\u00e9/v1"},
 		{Name: "server-path-non-ascii", Servers: []*Server{{URL: "https://h.example/caf\u00e9"}}, Expected: "/caf\u00e9"},
 		{Name: "server-path-with-space", Servers: []*Server{{URL: "https://h.example/my%20api/v2"}}, Expected: "/my api/v2"},
+		{Name: "relative-server-first", Servers: []*Server{{URL: "/"}, {URL: "https://api.example.com/v1"}}, Expected: ""},
+		{Name: "relative-server-with-path-first", Servers: []*Server{{URL: "/internal"}, {URL: "https://api.example.com/v1"}}, Expected: "/internal"},
+		{Name: "server-variable-glued-to-host", Servers: []*Server{{URL: "https://api.example.com{basePath}", Variables: map[string]*ServerVariable{"basePath": {Default: "/v2"}}}}, Expected: "/v2"},
+		{Name: "server-variable-default-with-slashes", Servers: []*Server{{URL: "https://api.example.com/{basePath}", Variables: map[string]*ServerVariable{"basePath": {Default: "api/v3/"}}}}, Expected: "/api/v3"},
 		{Name: "server-variable-used-twice", Servers: []*Server{{URL: "https://{region}.api.example.com/{region}/{version}", Variables: map[string]*ServerVariable{"region": {Default: "eu"}, "version": {Default: "v2"}}}}, Expected: "/eu/v2"},
 	}
 }
